@@ -26,6 +26,8 @@ var families = map[string]genFn{
 	"kv":  genKV,
 	"doc": genDoc,
 	"log": genLog,
+	"routes": genRoutes,
+	"status": genStatus,
 }
 
 func main() {
